@@ -104,12 +104,16 @@ func (cl *ClientLimiter) gcLoop() {
 }
 
 func (cl *ClientLimiter) gc() {
-	ddl := time.Now().Add(-entryTtl)
+	now := time.Now()
+	ddl := now.Add(-entryTtl)
 	cl.m.Range(func(key netip.Addr, value *e) bool {
 		value.m.Lock()
 		lastSeen := value.lastSeen
+		// Only a bucket that is full again can be dropped. A new bucket is
+		// always full. Dropping a drained bucket will refill it for free.
+		full := value.l.TokensAt(now) >= float64(value.l.Burst())
 		value.m.Unlock()
-		if lastSeen.Before(ddl) {
+		if lastSeen.Before(ddl) && full {
 			cl.m.Delete(key)
 		}
 		return true
